@@ -97,6 +97,7 @@ def extra_valid_ops(deep=False):
         ["extra", "Server", "x86_64", "Server/x86_64/os/EULA", 1, {"md5": "b" * 32, "sha1": "c" * 40, "sha256": "d" * 64}],
         ["extra", "Server", "x86_64", "Server/x86/README", 7, {"sha256": "e" * 64}],
         ["extra", "Client", "i386", "Client/i386/os/GPL", 18092, {"sha256": "a" * 64}],
+        ["extra", "Server", "x86_64", "Server/x86_64/os/.placeholder", 0, {}],          # a zero-byte file, no checksums (yet)
     ]
 
 
@@ -119,7 +120,7 @@ BUILDERS = {
     "extra": {"valid": extra_valid_ops, "invalid": EXTRA_INVALID, "model": M.extra_add, "attr": "extra_files",
               "new": lambda: __import__("productmd.extra_files").extra_files.ExtraFiles()},
 }
-REQUIRED_OUTCOMES = (["%s:filed" % b for b in ("rpms", "modules")] + ["extra:appended", "dump_for_tree:ok"] +
+REQUIRED_OUTCOMES = (["%s:filed" % b for b in ("rpms", "modules")] + ["extra:appended", "dump_for_tree:ok", "self-reload:ok"] +
                      sorted({"rpms:refused:" + r for _, r in RPM_INVALID} | {"modules:refused:" + r for _, r in MOD_INVALID} |
                             {"extra:refused:" + r for _, r in EXTRA_INVALID}))
 
@@ -136,8 +137,10 @@ def m_step(builder, state, op):
     return BUILDERS[builder]["model"](state, *[a[1:] if _is_tuple_marker(a) else a for a in op[1:]])
 
 
-def run_history(builder, hist, cycle=False):
-    """Replays hist on a fresh manifest object in lockstep with the model -> (model state, problems, reasons)."""
+def run_history(builder, hist, cycle=False, reload_before_last=False):
+    """Replays hist on a fresh manifest object in lockstep with the model -> (model state, problems, reasons).
+    reload_before_last: before the last call the object writes itself and reads its own file back INTO ITSELF (a manifest
+    reader replaces its table by the document's): whatever add() remembers about the table it filled must not outlive that."""
     b = BUILDERS[builder]
     other = misc.set_compose(b["new"]())          # an unrelated manifest filled first: nothing of it may show up in `obj`
     call(other.add, *copy.deepcopy(b["valid"]()[-1][1:]))
@@ -147,6 +150,12 @@ def run_history(builder, hist, cycle=False):
     reasons = []
     shared = {}                 # equal list/dict arguments of different calls are the SAME object, as in a caller's loop
     for n, op in enumerate(hist):
+        if reload_before_last and n == len(hist) - 1 and n > 0:
+            w = call(obj.dumps)
+            if w[0] == "ok":
+                r = call(obj.loads, w[1])
+                if r[0] != "ok" or getattr(obj, b["attr"]) != state:
+                    return state, ["step %d: the manifest cannot read its own file back into itself (%s)" % (n, r[1] if r[0] != "ok" else "table differs")], reasons
         state2, want, reason = m_step(builder, state, op)
         before = copy.deepcopy(getattr(obj, b["attr"]))
         args = [tuple(a[1:]) if _is_tuple_marker(a) else
@@ -327,6 +336,15 @@ def run_unit(unit, acc):
                 continue
             acc.outcome("%s:%s" % (builder, reason) if want == "ok" else "%s:refused:%s" % (builder, reason))
             if len(full) >= 2:
+                _, problems, _ = run_history(builder, full, reload_before_last=True)
+                acc.ev()
+                if problems:
+                    acc.violation("%s:%s:after-self-reload" % (builder, reason), {"kind": "hist", "builder": builder, "hist": full, "reload": True},
+                                  {"problems": problems}, "%s history %s with the manifest re-read into itself before the last call: %s"
+                                  % (builder, full, problems[0][:600]))
+                else:
+                    acc.outcome("self-reload:ok")
+            if len(full) >= 2:
                 acc.nontriv((builder, json.dumps(full)))
         if builder == "extra" and src:
             queries = [[variant, arch, base] for variant in sorted(src) for arch in sorted(src[variant]) for base in BASE_PATHS]
@@ -349,7 +367,8 @@ def run_unit(unit, acc):
 def replay(case):
     if case["kind"] == "tree":
         return tree_dumps(case["hist"], case["queries"])
-    _, problems, _ = run_history(case["builder"], case["hist"], cycle=case.get("cycle", False))
+    _, problems, _ = run_history(case["builder"], case["hist"], cycle=case.get("cycle", False),
+                                 reload_before_last=case.get("reload", False))
     return {"problems": problems}
 
 
